@@ -414,10 +414,10 @@ func packWorker() int {
 // ---------------------------------------------------------------- parent
 
 type wproc struct {
-	cmd *exec.Cmd
-	in  io.WriteCloser
-	out *bufio.Reader
-	err *bytes.Buffer
+	cmd  *exec.Cmd
+	in   io.WriteCloser
+	out  *bufio.Reader
+	err  *bytes.Buffer
 	base string
 }
 
